@@ -69,7 +69,7 @@ def run(ctx):
         # (b) every get_rule is preceded (since the previous get_rule) by the exhausted test, False edge
         last = 0
         for i, e in enumerate(ev):
-            if e["k"] == "call" and e["callee"].endswith("::get_rule"):
+            if e["k"] == "call" and S.is_fetch(e["callee"]):
                 n_b += 1
                 seg = ev[last:i]
                 good = any(x["k"] == "branch" and x["cond"][0] == "binop" and x["cond"][1] in ("Ge", "Lt", "Gt", "Le") and
@@ -87,7 +87,7 @@ def run(ctx):
                 last = i
         # (c) exhausted exit without child: no effectful call
         rc = real_calls(p)
-        if p.end == "return" and is_none(p.ret) and not any(e["callee"].endswith("::get_rule") or e["callee"] == E.path
+        if p.end == "return" and is_none(p.ret) and not any(S.is_fetch(e["callee"]) or e["callee"] == E.path
                                                            for e in rc):
             first = next((e for e in ev if e["k"] == "branch"), None)
             if first is not None and first["value"] is False:
